@@ -95,3 +95,15 @@ Definition nbranches_all : list N :=
 
 Definition mismatches (l : list ncase) : list N := mism ncheck l.
 Definition coverage (l : list ncase) : list N := cover nbranch l.
+
+(* what the model computes for a case (for the replay file of a mismatch) *)
+Inductive mout := MBytes (o : bytes) | MParse (o : pobs) | MCmp (c : N).
+Definition model_out (c : ncase) : mout :=
+  match c with
+  | NTs t _ => MBytes (name_timestamp t)
+  | NTsNano u _ => MBytes (name_timestamp_from_nano u)
+  | NBuild a _ => MBytes (build_name (info_of a))
+  | NParse name _ => MParse (model_parse_name name)
+  | NSan s _ => MBytes (instance_id s [])
+  | NPair a b _ => MCmp (cmp_code (bcmp (build_name (info_of a)) (build_name (info_of b))))
+  end.
